@@ -246,6 +246,19 @@ class Scale:
         return x * self.factor + self.offset
     def __repr__(self):
         return f"Scale({self.factor!r}, {self.offset!r}, {self.since!r})"
+PT = typing.TypeVar("PT")
+class Page(typing.Generic[PT]):
+    # a user generic typed through its constructor only
+    def __init__(self, ids: typing.List[int], total: int, label: str, cursor: typing.Optional[str] = None):
+        self.ids, self.total, self.label, self.cursor = ids, total, label, cursor
+    def __repr__(self):
+        return f"Page({self.ids!r}, {self.total!r}, {self.label!r}, {self.cursor!r})"
+class KwWin:
+    # keyword-only parameters are members like the others
+    def __init__(self, ident: int, *, start: datetime.date = datetime.date(1, 1, 1), weight: decimal.Decimal = decimal.Decimal(1)):
+        self.ident, self.start, self.weight = ident, start, weight
+    def __repr__(self):
+        return f"KwWin({self.ident!r}, {self.start!r}, {self.weight!r})"
 @dataclasses.dataclass
 class ScaleHolder:
     label: str
@@ -258,7 +271,8 @@ class Job:
 """
 PRIV_TARGETS = ["Doc", "DocPart", "Account", "Ledger", "Wrapped", "Plain", "typing.List[Doc]", "typing.Dict[str, Account]",
                 "typing.Optional[Wrapped]", "typing.Tuple[Account, Doc]", "Options", "Sized", "Job", "typing.List[Options]", "typing.Dict[str, Sized]",
-                "Scale", "ScaleHolder", "typing.List[Scale]", "AdminId", "LabeledPt", "Grant", "typing.List[AdminId]"]
+                "Scale", "ScaleHolder", "typing.List[Scale]", "AdminId", "LabeledPt", "Grant", "typing.List[AdminId]",
+                "Page", "typing.List[Page]", "typing.Dict[str, Page]", "KwWin", "typing.List[KwWin]", "typing.Optional[KwWin]"]
 PRIV_INPUTS = ["{'_id': '7c5b9e1e-3f65-4b0a-9a57-0f6c0b1d2a11', 'title': 'a'}", "{'_id': ['not', 'a'], 'title': 'a'}",
                "'{\"_id\": \"7c5b9e1e-3f65-4b0a-9a57-0f6c0b1d2a11\", \"title\": \"a\"}'", "{'_rev': '3', '_tags': ['1', '2']}", "{'_rev': None}",
                "{'owner': 'ann', '_balance': '12.50'}", "{'owner': 'ann', '_balance': {'oops': None}}", "{'owner': 'ann'}",
@@ -273,7 +287,10 @@ PRIV_INPUTS = ["{'_id': '7c5b9e1e-3f65-4b0a-9a57-0f6c0b1d2a11', 'title': 'a'}", 
                "{'k': {'n': '5'}}", "{'factor': '2.50', 'offset': '3', 'since': '2024-02-29'}", "[{'factor': '1', 'offset': 'x'}]",
                "{'label': 7, 'items': {'k': {'factor': '2.50', 'offset': '3', 'since': '2024-02-29'}}}", "[{'factor': '1.5'}]",
                "{'value': '7'}", "'{\"value\": \"7\"}'", "['7']", "{'value': [1, 2]}", "{'x': '1', 'y': '2'}", "['1', '2']",
-               "{'admin': {'value': '7'}, 'at': {'x': '1'}}", "[{'value': '1'}, {'value': '2'}]", "{'admin': ['3']}"]
+               "{'admin': {'value': '7'}, 'at': {'x': '1'}}", "[{'value': '1'}, {'value': '2'}]", "{'admin': ['3']}",
+               "{'ids': ['1', '2'], 'total': '3', 'label': 7}", "{'ids': 'not a list of numbers', 'total': [], 'label': None}",
+               "[{'ids': ['1'], 'total': '3', 'label': 7, 'cursor': 5}]", "{'k': {'ids': ['1', '2'], 'total': '3', 'label': 7}}",
+               "{'ident': '7', 'start': '2020-02-29', 'weight': '2.50'}", "[{'ident': '7', 'weight': 3}]", "{'ident': '1', 'start': 'junk'}"]
 
 
 def _priv_child(ann):
@@ -314,7 +331,7 @@ def _priv_child(ann):
         if isinstance(a, type) and issubclass(a, tuple) and hasattr(a, "_fields"):
             hints = typing.get_type_hints(a)
             return type(x) is a and all(conf(hints[n], getattr(x, n)) for n in a._fields)
-        if a is mod.Scale:
+        if a in (mod.Scale, mod.Page, mod.KwWin):
             return type(x) is a and all(conf(h, getattr(x, n)) for n, h in typing.get_type_hints(a.__init__).items() if n != "return")
         return type(x) is a
     out = []
